@@ -167,11 +167,24 @@ theorem Core.ext' {a b : Core} (h1 : a.hdr = b.hdr) (h2 : a.alias = b.alias) (h3
 
 theorem materialize_img (copy : Bool) (w : World) : (materialize copy w).img = w.img := rfl
 theorem materialize_bound (copy : Bool) (w : World) : (materialize copy w).bound = w.bound := rfl
+/-- `maps_file` answers True exactly when some owner in the chain is a memory map -/
+theorem mapsFile_eq_any (ch : List Owner) : mapsFile ch = ch.any Owner.isMap := by
+  induction ch with
+  | nil => rfl
+  | cons o rest ih =>
+      cases o <;> simp [mapsFile, Owner.isMap, ih]
+
 theorem materialize_live (w : World) : (materialize true w).live = none := by
-  unfold materialize
-  cases w.img.src with
+  unfold materialize materializeWith
+  simp only [if_true]
+  cases hs : w.img.src with
   | array => rfl
   | proxy f m => cases m <;> rfl
+  | view f ch =>
+      simp only [Src.mapped, Src.chain]
+      by_cases h : ch.any Owner.isMap = true
+      · simp [h, mapsFile_eq_any]
+      · simp [h]
 
 /-- the state `to_file_map` works on after `np.asanyarray(dataobj)` (+ copy) and `update_header()` -/
 def entry (w : World) : World := updateHeader (materialize true w)
